@@ -3,8 +3,16 @@ module verifharness
 go 1.23
 
 require (
+	github.com/iotaledger/iota.go v1.0.0
 	github.com/wollac/iota-crypto-demo v0.0.0
+	golang.org/x/crypto v0.2.0
 	pgregory.net/rapid v1.3.0
+)
+
+require (
+	filippo.io/edwards25519 v1.0.0 // indirect
+	github.com/pkg/errors v0.8.1 // indirect
+	golang.org/x/sys v0.2.0 // indirect
 )
 
 replace github.com/wollac/iota-crypto-demo => /repo
